@@ -8,7 +8,8 @@ from props import rt
 PID = "C01"
 LEVEL = "proof"
 MODULE = "Sigc.Props.C01"
-REQUIRED = ["Sigc.C01.connect_appends", "Sigc.C01.connect_first_prepends", "Sigc.C01.turns_eq_snapshot", "Sigc.C01.turns_are_old_cells"]
+EXTRA_MODULES = ("Sigc.Props.Refine",)   # the refinement P ⊑ S': what the specification says holds of the mechanism model
+REQUIRED = ["Sigc.C01.connect_appends", "Sigc.C01.connect_first_prepends", "Sigc.C01.turns_eq_snapshot", "Sigc.C01.turns_are_old_cells", "Sigc.Refine.refines", "Sigc.Refine.refines_calls"]
 TRUSTED = rt.TRUSTED_RT
 ASSUMPTIONS = rt.ASSUMPTIONS_RT + []
 PARTIAL = []
